@@ -530,6 +530,14 @@ class Assembler:
         return head + txt + body
 
     def mut_refs(self, s, fp, ed, spec, fnname):
+        # ghost-journal parameter: `journal_param = true` adds `, verif_journal: &mut VJournal` to the signature, so that the
+        # function's ensures clauses can speak about the journal at EVERY exit (early returns, `?`); the stand-ins of the
+        # journalled calls (transformation 15) are written with `&mut verif_journal` and get `&mut *verif_journal` here
+        if spec.get('journal_param'):
+            kp = fp.k_pclose
+            sep = '' if s.is_p(kp - 1, ',') or s.is_p(kp - 1, '(') else ', '
+            ed.insert(s.t[kp][1], sep + 'verif_journal: &mut VJournal')
+            self.fired.add('15j:ghost-journal-parameter')
         # 19: interior-mutable receiver / parameter as `&mut`: a type whose methods mutate through `&self` (a RocksDB
         # transaction handle) gives Verus no way to say that a call changed it.  `mut_self = true` rewrites the receiver
         # `&self` to `&mut self`, `mut_params = ["txn"]` rewrites `txn: &T` to `txn: &mut T`; nothing else changes, and rustc's
@@ -729,7 +737,8 @@ class Assembler:
             else:
                 ka, kb = fp.find_stmt(ab['expr'], ab.get('n', 0))
             orig = s.text[s.t[ka][1]:s.t[kb][2]]
-            ed.replace(s.t[ka][1], s.t[kb][2], ab['as'])
+            as_text = ab['as'].replace('&mut verif_journal', '&mut *verif_journal') if spec.get('journal_param') else ab['as']
+            ed.replace(s.t[ka][1], s.t[kb][2], as_text)
             what = ('initializer of `let %s`' % ab['let']) if 'let' in ab else ('expression `%s`' % re.sub(r'\s+', ' ', orig)[:160])
             self.assumed.append({'function': '%s :: %s abstracted as %s' % (fnname, what, ab['as'].split('(')[0].strip()),
                                  'sha256': hashlib.sha256(re.sub(r'\s+', ' ', orig).encode()).hexdigest(), 'proved_in': None})
